@@ -15,7 +15,8 @@ LEVEL = "model_checking"
 RULE = ("schedule enumeration (E2): configurations of up to 4 responding hosts, each good or one of 7 bad-reply classes (random "
         "bytes, undecryptable envelope, envelope with a 3-byte body, non-UTF-8 body, name without separators / non-hex type, XML "
         "without attributes, a good reply truncated by 1..48 bytes), 1..3 duplicate copies per host from different source ports; for every configuration ALL distinct "
-        "arrival orders of the datagram multiset are executed against the real Discover.discover() on the simulated broadcast. "
+        "arrival orders of the datagram multiset are executed against the real Discover.discover() on the simulated broadcast (limited or subnet-directed; "
+        "two of the good hosts send replies ending in LF / CR). "
         "Oracle: discover() returns (never raises) exactly one device per good host. "
         "state = (configuration, arrival-order prefix); transition = one datagram delivered")
 ASSUMPTIONS = ["duplicates of one host are byte-identical", "datagrams arrive 1 ms apart, all before the 5 s discovery window closes"]
@@ -64,13 +65,27 @@ def good_id(i: int) -> int:
     return 0x1000 + (i % 2)          # hosts 0/2 and 1/3 advertise the same device id (clones): still one device per address
 
 
+_GOOD_CACHE: dict = {}
+
+
 def good_datagram(i: int, ip: str):
     # a host answers each probe; its replies may come as bare V2 packets and as V3-wrapped ones (same identity)
     first = 2 + i % 2
     # odd-numbered hosts advertise (inside the reply) the address of host 0 instead of the one they answer from
     # (multi-homed / NATed device): a device is still reported per RESPONDING address
     inner_ip = ip if i % 2 == 0 else "10.2.0.10"
-    return [sd.reply(v, good_id(i), inner_ip, 6444, f"{i:032d}", good_name(i)) for v in (first, 5 - first, first)]
+    # hosts 2 and 3: the serial number is chosen so that the first rendition of the reply ends in LF resp. CR (the trailing
+    # digest is opaque bytes; a line-oriented "clean-up" of the datagram must not eat it)
+    want = {2: 0x0A, 3: 0x0D}.get(i)
+    key = (i, ip)
+    if key not in _GOOD_CACHE:
+        for n in range(400000):
+            sn = f"{i:02d}{n:030d}"
+            dgs = [sd.reply(v, good_id(i), inner_ip, 6444, sn, good_name(i)) for v in (first, 5 - first, first)]
+            if want is None or dgs[0][-1] == want:
+                _GOOD_CACHE[key] = dgs
+                break
+    return _GOOD_CACHE[key]
 
 
 def configs(tier):
@@ -137,7 +152,9 @@ def execute(roles, copies, rot, order):
         hosts.append(sd.Host(ip, dg, listen_port=6445 if (i + rot) % 2 == 0 else 20086, copies=copies[i]))
     w.net.udp_responder = sd.Population(hosts, order=list(order))
     try:
-        out = w.run(Discover.discover(auto_connect=False))
+        # every other configuration scans with the subnet-directed broadcast address instead of 255.255.255.255
+        kw = {"target": "10.2.0.255"} if rot % 2 else {}
+        out = w.run(Discover.discover(auto_connect=False, **kw))
         errs = w.loop_errors()
         return out, errs
     finally:
